@@ -59,10 +59,12 @@ PLAN = {
         "quick": [
             {"run": "TestC04_Filters", "checks": 6000},
             {"run": "TestC04_CLI", "checks": 60},
+            {"run": "TestC04_Concurrent", "checks": 60, "cores": 8},
         ],
         "thorough": [
             {"run": "TestC04_Filters", "checks": 900000, "shards": 14, "timeout": 7200},
             {"run": "TestC04_CLI", "checks": 6000, "shards": 2, "timeout": 7200},
+            {"run": "TestC04_Concurrent", "checks": 4000, "shards": 2, "cores": 8, "timeout": 7200},
         ],
     },
     "C05": {
